@@ -25,6 +25,9 @@ SHIFTED = [(['a', 'b', 'c', 'd', 'e'], ['b', 'c', 'X', 'e']), ([1, 2, 3, 4, 5, 6
            ({'x': {'l': [1, 2, 3, 4]}, 'y': [{'m': ['p', 'q', 'r', 's']}], 'z': ['u', 'v', 'w', 'x']},
             {'x': {'l': [0, 1, 2, 3, 4, 5]}, 'y': [{'m': ['o', 'p', 'q', 'r', 's', 't']}], 'z': ['t', 'u', 'v', 'w', 'x', 'y']}),
            # text that is legal JSON but not encodable as it stands (an unpaired surrogate), in a changed leaf, an untouched leaf and a key
+           # records whose own keys are named like the fields of a patch entry
+           ({'log': [{'id': 1}]}, {'log': [{'id': 1}, {'id': 2, 'old_value': 'x', 'new_value': 'y'}], 'last': {'old_value': 5, 'new_path': 'p', 'n': 1}}),
+           ({'log': [{'id': 1}, {'id': 2, 'old_value': 'x', 'n': 0}]}, {'log': [{'id': 1}]}), ([{'old_value': 1, 'k': 2}], [{'old_value': 1, 'k': 2}, {'old_value': 2, 'k': 3}, {'old_type': 'a'}]),
            # leaves that change type where the patch can leave the new value out (it is what the new type makes of the old value)
            ({'flag': 'no', 'l': ['x', 1], 'n': '3', 'e': ''}, {'flag': True, 'l': [True, 1], 'n': 3, 'e': False}), ({'a': 1, 'b': 0, 'c': 2.0}, {'a': True, 'b': False, 'c': 2}),
            # texts made of the same lines with different line ends (the convenience line diff is empty, the values differ)
